@@ -895,4 +895,23 @@ theorem EvInv.linked_unique {r : Reg} (h : EvInv r) {d1 d2 : EvObj} (h1 : d1 ∈
   nodup_map_inj (f := (·.num)) (by rw [h.nums]; exact List.nodup_range') h1 h2 e
 
 
+/-! ### class extensions -/
+
+theorem patchExt_get_other (r : Reg) (x : Nat) (ds : List Decl) (i : Nat) (row : Row) (n : Nat)
+    (hn : ∀ d ∈ ds, d.has = true → evNum r d.ev ≠ n) :
+    (patchExt r x ds i row).c.get n = row.c.get n ∧ (patchExt r x ds i row).i.get n = row.i.get n := by
+  induction ds generalizing i row with
+  | nil => exact ⟨rfl, rfl⟩
+  | cons d t ih =>
+    have ht : ∀ d' ∈ t, d'.has = true → evNum r d'.ev ≠ n := fun d' hd' => hn d' (by simp [hd'])
+    simp only [patchExt]
+    by_cases hh : d.has = true
+    · have hne : n ≠ evNum r d.ev := fun e => hn d (by simp) hh e.symm
+      have := ih (i + 1) (row.set (evNum r d.ev) x i) ht
+      simp only [hh, if_true]
+      rw [this.1, this.2]
+      simp [Row.set, Arr.get_set, hne]
+    · simp only [hh]
+      exact ih (i + 1) row ht
+
 end Morfuse.Dispatch
